@@ -114,7 +114,7 @@ def corpus_sources():
             sp["order"] = 1
         cand = ("cand a surp 0x0p+0 classic -1" if fam in ("localp", "wavelet") else "cand a aw level aw: 1 1")
         out.append({"id": "y%d" % i, "spec": sp, "kind": "construct-empty", "lines": [gl.make_cmd(sp, "a"), "begin a", cand, "@DELIVER@"],
-                    "trans": None, "cand": cand, "fn": "hash", "seed": 2000 + i})
+                    "trans": None, "cand": cand, "fn": "hash", "seed": 2000 + i, "deliver": "parked"})
     return out
 
 
@@ -318,7 +318,9 @@ def run(res, tier, seed, replay_sources=None):
                 continue
             k = rr.randint(1, min(4, n - 1))
             idx = [n - 1 - j for j in range(k)]           # the least important candidates first: they wait for their parents
-            if rr.random() < 0.5:
+            if s.get("deliver") == "parked":
+                idx = [n - 1, n - 2]                       # (corpus: certainly parked, the roots are not delivered)
+            elif rr.random() < 0.5:
                 idx.append(0)
             s["script"] = [("deliver a %s idx: %s" % (s["fn"], " ".join(map(str, idx)))) if l == "@DELIVER@" else l for l in s["lines"]]
         else:
@@ -396,7 +398,7 @@ def run(res, tier, seed, replay_sources=None):
 
     def viol(key, what, cid, s, extra=None):
         stats["violations"] += 1
-        rp = {"kind": "impl-counterexample", "source": {k: v for k, v in s.items() if k in ("id", "spec", "kind", "lines", "trans", "cand", "fn", "seed")},
+        rp = {"kind": "impl-counterexample", "source": {k: v for k, v in s.items() if k in ("id", "spec", "kind", "lines", "trans", "cand", "fn", "seed", "deliver")},
               "case": cid, "script": next((x for x in scripts if x[0] == "case " + cid), [])[:300]}
         if extra:
             rp.update(extra)
